@@ -316,11 +316,14 @@ class Gen:
         # (the real compiler rejects `~.field` inside a tuple with a bare `...`: FeatureUnsupported,
         # so the added fields of the flow form do not refer to the flow either)
         fflow = None
-        extras = [(l + ": " if l else "") + self.expr(ft, env, fflow, depth + 1) for l, ft in rest]
+        # a callable that starts a field of a tuple containing a spread is not applied by the real
+        # compiler (reported from this check): no function variables in scope for these fields
+        env_nf = [(x, t) for x, t in env if not (isinstance(t, tuple) and t[0] == "fn")]
+        extras = [(l + ": " if l else "") + self.expr(ft, env_nf, fflow, depth + 1) for l, ft in rest]
         labelled = [(l, ft) for l, ft in base_fields if l]
         if labelled and r.random() < 0.5:
             l, ft = r.choice(labelled)                     # override: stays in place
-            extras.append(l + ": " + self.expr(ft, env, fflow, depth + 1))
+            extras.append(l + ": " + self.expr(ft, env_nf, fflow, depth + 1))
             self.note("spread_override")
         extra = "".join(", " + e for e in extras)
         base_src = self.expr(base_t, env, flow, depth + 1)
@@ -583,7 +586,7 @@ class Gen:
                 # rebinding an existing name (closures defined earlier keep the old value)
                 text = ",\n".join(steps)
                 vis = [(x, t) for x, t in self.lookup_latest(env)
-                       if not (isinstance(t, tuple) and t[0] == "fn") and not self.matched_on(x, text)]
+                       if t in (INT, BIN, STR) and not self.matched_on(x, text)]
                 if vis:
                     x, _ = r.choice(vis)
                     t = self.rand_type()
